@@ -76,6 +76,9 @@ static int get_bom_skip(const std::vector<char>& buff)
 }
 static bool file_exists(std::string_view filename)
 {
+    // A directory can be opened as a stream as well, but it is no file that could be read
+    std::error_code ec;
+    if (!std::filesystem::is_regular_file(std::filesystem::path(std::string(filename)), ec)) { return false; }
     std::ifstream infile(filename.data());
 #ifdef DF__SQF_FILEIO__TRACE_REESOLVE
     std::cout << "\x1B[33m[FILEIO ASSERT]\033[0m" <<
